@@ -24,11 +24,11 @@ import (
 // ---------------------------------------------------------------- collector level stubs
 
 type c06Match struct {
-	Num   uint64     `json:"num"`
-	Ext   string     `json:"id"`
-	Score float64    `json:"score"`
-	FS    []string   `json:"fs,omitempty"` // string field values
-	FN    []float64  `json:"fn,omitempty"` // numeric field values
+	Num   uint64      `json:"num"`
+	Ext   string      `json:"id"`
+	Score float64     `json:"score"`
+	FS    []string    `json:"fs,omitempty"` // string field values
+	FN    []float64   `json:"fn,omitempty"` // numeric field values
 	terms [][2]string // (field, term) in visit order
 }
 
@@ -77,9 +77,11 @@ type c06Reader struct {
 func (r *c06Reader) TermFieldReader(ctx context.Context, term []byte, field string, a, b, c bool) (index.TermFieldReader, error) {
 	return nil, fmt.Errorf("stub")
 }
-func (r *c06Reader) DocIDReaderAll() (index.DocIDReader, error)             { return nil, fmt.Errorf("stub") }
-func (r *c06Reader) DocIDReaderOnly(ids []string) (index.DocIDReader, error) { return nil, fmt.Errorf("stub") }
-func (r *c06Reader) FieldDict(field string) (index.FieldDict, error)        { return nil, fmt.Errorf("stub") }
+func (r *c06Reader) DocIDReaderAll() (index.DocIDReader, error) { return nil, fmt.Errorf("stub") }
+func (r *c06Reader) DocIDReaderOnly(ids []string) (index.DocIDReader, error) {
+	return nil, fmt.Errorf("stub")
+}
+func (r *c06Reader) FieldDict(field string) (index.FieldDict, error) { return nil, fmt.Errorf("stub") }
 func (r *c06Reader) FieldDictRange(field string, s, e []byte) (index.FieldDict, error) {
 	return nil, fmt.Errorf("stub")
 }
@@ -100,8 +102,10 @@ func (r *c06Reader) ExternalID(id index.IndexInternalID) (string, error) {
 	}
 	return m.Ext, nil
 }
-func (r *c06Reader) InternalID(id string) (index.IndexInternalID, error) { return nil, fmt.Errorf("stub") }
-func (r *c06Reader) Close() error                                       { return nil }
+func (r *c06Reader) InternalID(id string) (index.IndexInternalID, error) {
+	return nil, fmt.Errorf("stub")
+}
+func (r *c06Reader) Close() error { return nil }
 
 type c06DVR struct {
 	r      *c06Reader
